@@ -185,13 +185,14 @@ def ack_count(ctx):
                         qos_dec = names
                     elif si.get("adt") == "std::option::Option" and "packet_identifier" in fields and "qos" not in fields and "subscription_identifier" not in fields:
                         pid_dec = "Some" if 1 in vals else "None"
-                if qos_dec is not None and len(qos_dec) == 1:
+                if pid_dec == "None":
+                    # no identifier to acknowledge: the decoder yields one exactly when QoS > 0 (rule PUBID)
+                    want = []
+                    why = "packet_identifier=None"
+                elif qos_dec is not None and len(qos_dec) == 1:
                     w = spec["Publish/" + qos_dec[0]]
                     want = [w] if w else []
                     why = "qos=" + qos_dec[0]
-                elif pid_dec == "None":
-                    want = []
-                    why = "packet_identifier=None"
                 else:
                     want = None
                     why = "no decision on qos / packet_identifier on this path"
